@@ -1,8 +1,8 @@
 SPECIFICATION Spec
 CONSTANTS
   Procs = {1, 2, 3}
-  MaxSerial = 5
-  InitLatest = 2
+  MaxSerial = 4
+  InitLatest = 1
   MaxNotify = 3
 INVARIANTS TypeOK Succession VerifiedChain
 PROPERTIES NoRegress
